@@ -1,9 +1,18 @@
-"""Translator (tie T) for C05/C06: regenerates lean/TinyVerif/Gen/ThreadSites.lean from the *current*
-/repo/tiny-std/src/thread/spawn.rs (+ rusl/src/futex.rs for the wait's key kind).
+"""Translator (tie T) for C05/C06: regenerates lean/TinyVerif/Gen/ThreadSites.lean from the *current* thread implementation:
+/repo/tiny-std/src/thread.rs and EVERY .rs under /repo/tiny-std/src/thread/ (one file or several: they are pooled into one unit,
+calls are followed across them, `mod::path::f(..)` resolves to f) (+ rusl/src/futex.rs for the wait's key kind).
 
-The extraction is *semantic*, not positional:
-  * spawn.rs is tokenised (comments, strings, attributes, the aarch64 / test items removed) and every function of the
-    file is collected with its owner (`impl Tsm`, `impl Drop for JoinHandle`), parameters and return type;
+The extraction is *semantic*, not positional, and ROLE-based, not name-based: the only names relied on are the public API
+(`spawn`, `JoinHandle::join`, `Drop for JoinHandle`), the attribute `#[panic_handler]`, std / core / alloc / sc / rusl items
+(`AtomicBool`, `compare_exchange`, `dealloc`, `SET_TID_ADDRESS`, `mmap`, `futex_wait_fast` ...).  Everything private is identified by
+what it is (`File.roles`): the shared block = the type whose methods hand out `&AtomicBool` / `&AtomicU32`; its slot accessors = its
+methods whose signature mentions `Option<`; the thread-pointer function = the one that reads `fs:0`, the thread-local block = what
+it points to, "is a spawned thread" = `Some` of an Option field / Option-returning method of that block; the release of the shared
+block = a `dealloc` inside a method of the shared block's type, of the thread-local block = a `dealloc` of the thread pointer / with
+that block's layout.  Constants are evaluated (`2 * 1024 * 1024`, named consts, `sc::nr::X`), `{NAME}` operands of asm templates are
+replaced by the value of their `NAME = const EXPR`.
+  * the files are tokenised (comments, strings, attributes, the aarch64 / test items removed) and every function is collected
+    with its owner (`impl <block>`, `impl Drop for JoinHandle`), parameters and return type;
   * calls to functions defined in the same file that (transitively) perform a protocol-relevant primitive are
     INLINED into their callers with parameter substitution (`release_unstarted(..)`, `Tsm::into_value`,
     `free_tls`, `wait_for_exit`, `Tsm::init`, `onwed_split_fn_once` ...), so that what counts is what a function
@@ -385,7 +394,7 @@ class File:
             if m:
                 body = self.txt[m.end():close_paren(self.txt, m.end() - 1)]
                 for fld in split_args(body):
-                    mm = re.match(r"(?:pub(?:\([\w: ]+\))? )?(\w+):Option<", fld)
+                    mm = re.match(r"(?:pub(?:\([\w: ]+\))? ?)?(\w+):Option<", fld)
                     if mm:
                         self.tls_opt.add(mm.group(1))
             self.tls_opt |= {f.name for f in self.fns if f.owner == self.tls_type and "Option<" in f.ret}
@@ -828,9 +837,7 @@ class Ana:
         offset) or goes through a function of the file that does"""
         if "Option<" in recv or "value_offset" in recv:
             return True
-        slot_fns = {f.name for f in self.F.fns if f.owner == "Tsm" and ("Option<" in f.ret or "Option<" in compact(f.body) or "value_offset" in compact(f.body))
-                    and "alloc(" not in compact(f.body)}
-        return any(c in slot_fns for c in re.findall(r"\.(\w+)(?:::<[^()]*>)?\(\)", recv))
+        return any(c in self.F.slot_fns for c in re.findall(r"\.(\w+)(?:::<[^()]*>)?\(\)", recv))
 
     # ---- operations of a straight-line piece of code, in textual (= evaluation) order
     def text_ops(self, toks):
@@ -852,6 +859,8 @@ class Ana:
                 best = t.prov
             return best
         found = []
+        tls_t = self.F.tls_type
+        tls_call = re.compile(r"(?<![\w.])(?:\w+::)*(?:%s)\(\)" % "|".join(sorted(map(re.escape, self.F.tls_fns)) or ["\0"]))
 
         def add(m, name, extra=None):
             found.append((m.start(), name, extra))
@@ -891,9 +900,10 @@ class Ana:
         for m in re.finditer(r"(?<![\w.])(?:alloc::alloc::|alloc::)?dealloc\(", s):
             args = s[m.end():close_paren(s, m.end() - 1)]
             prov = prov_at(m.start())
-            if "ThreadLocalStorage" in args:
+            a0 = (split_args(args) or [""])[0]
+            if (tls_t and tls_t in args) or tls_call.search(a0) or self.resolves_to(re.sub(r"\.cast(::<[\w:]+>)?\(\)$", "", a0), tls_call.pattern):
                 add(m, "tls_dealloc")
-            elif any(p.startswith("Tsm::") for p in prov):
+            elif self.F.block_type and any(p.startswith(self.F.block_type + "::") for p in prov):
                 add(m, "tsm_dealloc")
             else:
                 add(m, "dealloc?")
@@ -903,19 +913,19 @@ class Ana:
             add(m, "munmap")
         for m in re.finditer(r"__clone\(", s):
             add(m, "clone")
-        for m in re.finditer(r"Box::new\(ThreadLocalStorage\{", s):
+        for m in re.finditer(r"Box::new\(%s\{" % re.escape(tls_t or "\0"), s):
             add(m, "tls_box")
         for m in re.finditer(r"Box::new\(\(?(?:(\w+)\)?\)|(?:move)?\|)", s):
             if m.group(1) is None or m.group(1) in self.closure_names:
                 add(m, "box_closure")
         for m in re.finditer(r"Box::from_raw\((\w+(?:\(\))?(?:\.cast(?:::<[\w:]+>)?\(\))?)\)", s):
-            if self.resolves_to(m.group(1), r"ThreadLocalStorage\{"):
+            if self.resolves_to(m.group(1), r"%s\{" % re.escape(tls_t or "\0")):
                 add(m, "drop_tls")
-            elif self.resolves_to(m.group(1), r"get_tls_ptr\(\)"):
+            elif self.resolves_to(m.group(1), tls_call.pattern):
                 add(m, "tls_dealloc")       # the thread's own block, re-boxed and dropped
         split_names = set()
         for names, init in self.tuples:
-            if re.search(r"Box::into_raw\(Box::new\(", init) or "onwed_split_fn_once" in init:
+            if re.search(r"Box::into_raw\(Box::new\(", init):
                 split_names |= set(names)
         for m in re.finditer(r"(?<![\w.:])\(?(\w+)\)?\(\(?(\w+)\)?\)", s):
             if m.group(1) in split_names and m.group(2) in split_names:
@@ -927,23 +937,29 @@ class Ana:
             add(m, "ret_err")
         for m in re.finditer(r"\.read\(\)", s):
             recv = s[expr_start(s, m.start()):m.start()]
-            if self.is_slot(recv):
-                add(m, "read_slot")
-            elif self.resolves_to(recv, r"get_tls_ptr\(\)") or "get_tls_ptr()" in recv:
+            prov = prov_at(m.start())
+            if self.is_slot(recv) or (self.F.block_type and any(p.startswith(self.F.block_type + "::") and p.split("::")[-1] in self.F.slot_fns for p in prov)):
+                add(m, "read_slot")     # through an expression that addresses the slot, or inside an (inlined) slot accessor of the block
+            elif self.resolves_to(recv, tls_call.pattern):
                 add(m, "tls_read")
         for m in re.finditer(r"mem::forget\(self\)|(?<![\w.])forget\(self\)|ManuallyDrop::new\(self\)", s):
             add(m, "forget")
         for m in re.finditer(r"asm!\(", s):
             body = s[m.end():close_paren(s, m.end() - 1)]
-            ins = re.findall(r'"([^"]*)"', re.split(r",(?:in|out|inout|lateout|inlateout|options)\(", body)[0])
-            if 'in("rax")MUNMAP' in body and ins[:1] == ["syscall"] and "mov al, 60" in ins and ins[-1:] == ["syscall"] and "noreturn" in body:
-                add(m, "asm_unmap_exit")
+            ins = asm_instructions(self.F, body)
+            mr = re.search(r'in\("rax"\)([\w:]+)', body)
+            if mr and self.F.value_of(mr.group(1)) == 11 and ins[:1] == ["syscall"] and ins[-1:] == ["syscall"] and "noreturn" in body and \
+                    asm_rax_at_syscalls(ins)[1:] == [60]:
+                add(m, "asm_unmap_exit")   # munmap (rax = 11 on entry) ; exit (60): registers only in between
             elif "syscall" in ins:
                 add(m, "asm?")
         for m in re.finditer(r"(?<![\w.])(?:\$?\w+::)*(?:e?print(?:ln)?|dbg)!\(", s):
             add(m, "print_lock")          # tiny-std's print macros take the non-reentrant stdout / stderr lock, then format their arguments
         for m in re.finditer(r"process::exit\(|(?<![\w.])exit\(", s):
             add(m, "exit_process")
+        for m in re.finditer(r"(?<![\w.:])((?:super|self|crate::thread)(?:::\w+)*)::(\w+)\(", s):
+            if not m.group(2)[:1].isupper() and m.group(2) not in self.F.by_name:
+                add(m, "call?")           # a function of the thread implementation that is in none of the files read: not followed, not guessed
         for m in re.finditer(r"(?<=[\w)\]])\?(?![A-Za-z])", s):
             add(m, "try?")
         found.sort(key=lambda x: x[0])
@@ -968,7 +984,7 @@ class Ana:
                 r = ("cas_lost", "cas_won") if p.startswith("Err") else ("cas_won", "cas_lost") if p.startswith("Ok") else None
             elif self.resolves_to(c, r"(?<![\w.])(\w+::)*mmap\("):
                 r = ("mmap_err", "mmap_ok") if p.startswith("Err") else ("mmap_ok", "mmap_err") if p.startswith("Ok") else None
-            elif self.resolves_to(c, r"thread_stack_info\(\)|\.stack_info\b"):
+            elif self.F.tls_opt and self.resolves_to(c, r"\.(%s)\b" % "|".join(sorted(map(re.escape, self.F.tls_opt)))):
                 r = ("is_thread", "is_main") if p.startswith("Some") else ("is_main", "is_thread") if p.startswith("None") else None
         else:
             cas_err = r"\.compare_exchange(_weak)?\(.*\)\.is_err\(\)$|^matches!\(.*\.compare_exchange(_weak)?\(.*\),Err\(_\)\)$"
@@ -1351,6 +1367,7 @@ def s_panic(ps):
     thr = [p for p in ps if has("is_thread", p)]
     main = [p for p in ps if has("is_main", p)]
     return (bool(lost(thr)) and bool(won(thr)) and bool(main)
+            and all(not has("print_lock", p) for p in thr)
             and all(understood(p) and once("tls_read", p) and once("tls_dealloc", p) and bef("tls_read", "tls_dealloc", p) and once("cas", p)
                     and (has("cas_won", p) != has("cas_lost", p)) and once("asm_unmap_exit", p)
                     and all(not has(x, p) or bef(x, "asm_unmap_exit", p) for x in ("tls_dealloc", "cas", "set_tid_0", "tsm_dealloc")) for p in thr)
@@ -1373,29 +1390,46 @@ def s_drop(ps):
 
 # ------------------------------------------------------------------ the asm trampoline, the futex key kind
 
-def asm_syscalls(raw):
+def asm_instructions(F, body):
+    """the template strings of an asm!/global_asm! invocation with `{NAME}` placeholders of `NAME = const EXPR` operands replaced by
+    the value of EXPR (named constants of the files / of sc::nr resolved); a placeholder that cannot be resolved is left as it is"""
+    consts = {}
+    for mm in re.finditer(r",(\w+)=const ([^,()]+(?:\([^()]*\))?)", body):
+        v = F.value_of(mm.group(2))
+        if v is not None:
+            consts[mm.group(1)] = v
+    ins = []
+    for x in re.findall(r'"([^"]*)"', re.split(r",(?:\w+=)?(?:in|out|inout|lateout|inlateout|options|const|sym)[ (]", body)[0]):
+        ins.append(re.sub(r"\{(\w+)\}", lambda q: str(consts[q.group(1)]) if q.group(1) in consts else q.group(0), x).strip())
+    return ins
+
+
+def asm_rax_at_syscalls(ins):
+    """the value of rax at each `syscall` of an x86-64 instruction list (None: set before the list / by something not followed)"""
+    out, rax = [], None
+    for i in ins:
+        mm = re.fullmatch(r"mov\s+(?:al|ax|eax|rax)\s*,\s*(\d+)", i)
+        if mm:
+            rax = int(mm.group(1))
+        elif re.fullmatch(r"xor\s+(eax|rax)\s*,\s*(eax|rax)", i):
+            rax = 0
+        elif i == "syscall":
+            out.append(rax)
+            rax = None
+    return out
+
+
+def asm_syscalls(raw, F=None):
     """x86-64 `__clone`: the system call numbers in rax at each `syscall`, in order"""
-    toks = strip_attrs(tokenize(raw))
-    txt = compact(toks)
-    out = []
+    F = F or File(raw)
+    txt = F.txt
     for m in re.finditer(r"global_asm!\(", txt):
         body = txt[m.end():close_paren(txt, m.end() - 1)]
-        ins = re.findall(r'"([^"]*)"', body)
-        if "__clone:" not in ins:
+        ins = asm_instructions(F, body)
+        if not any(re.fullmatch(r"\w+:", i) for i in ins) or "syscall" not in ins:
             continue
-        rax = None
-        for i in ins:
-            i = i.strip()
-            mm = re.fullmatch(r"mov\s+(?:al|ax|eax|rax)\s*,\s*(\d+)", i)
-            if mm:
-                rax = int(mm.group(1))
-            elif re.fullmatch(r"xor\s+(eax|rax)\s*,\s*(eax|rax)", i):
-                rax = 0
-            elif i == "syscall":
-                out.append(rax if rax is not None else -1)
-                rax = None
-        break
-    return out
+        return [-1 if x is None else x for x in asm_rax_at_syscalls(ins)]
+    return []
 
 
 def wait_key_private(repo):
@@ -1482,9 +1516,23 @@ def stack_map_flags(raw):
     return bits
 
 
+def source_files(repo):
+    """the thread implementation: tiny-std/src/thread.rs and every .rs under tiny-std/src/thread/ (it may be one file or several)"""
+    base = os.path.join(repo, "tiny-std/src")
+    out = [os.path.join(base, "thread.rs")] if os.path.exists(os.path.join(base, "thread.rs")) else []
+    d = os.path.join(base, "thread")
+    for root, _, files in sorted(os.walk(d)):
+        out += [os.path.join(root, f) for f in sorted(files) if f.endswith(".rs")]
+    return out
+
+
+def read_sources(repo):
+    return "\n".join(open(f).read() for f in source_files(repo))
+
+
 def analyse(repo=None):
     repo = repo or C.REPO
-    raw = open(os.path.join(repo, "tiny-std/src/thread/spawn.rs")).read()
+    raw = read_sources(repo)
     F = File(raw)
     notes = []
 
@@ -1515,7 +1563,7 @@ def analyse(repo=None):
         H = Ana(F, "spawn", toks, func_param=None, closure_names=names)
     J = ana_of("join", owner="JoinHandle")
     D = ana_of("drop", owner="JoinHandle", trait="Drop")
-    P = ana_of("on_panic")
+    P = ana_of(F.panic_fn or "on_panic")      # the function under #[panic_handler], whatever its name
     paths = {"spawn": H.paths() if H else [], "epilogue": E.paths() if E else [], "panic": P.paths() if P else [],
              "join": J.paths() if J else [], "drop": D.paths() if D else []}
     sites = {"join": J.sites if J else [], "drop": D.sites if D else [], "spawn": E.sites if E else [],
@@ -1554,7 +1602,7 @@ def analyse(repo=None):
         "dropExpect": wait_val(D),
         "stackMapFlags": stack_map_flags(raw),
     }
-    return {"F": F, "paths": paths, "sites": sites, "loops": loops, "derived": derived, "notes": notes, "clone_asm": asm_syscalls(raw),
+    return {"F": F, "paths": paths, "sites": sites, "loops": loops, "derived": derived, "notes": notes, "clone_asm": asm_syscalls(raw, F),
             "unfinished": init_val, "wait_private": wait_key_private(repo)}
 
 
